@@ -31,7 +31,7 @@ Reason(e) ==
   ELSE IF e.k = "prefix" THEN (IF PrefixOk(e.value, e.len, e.out.s) THEN "ok" ELSE "prefix-contract")
   ELSE IF e.k = "prefix_if" THEN (IF PrefixIfOk(e.value, e.prefix, e.out.s) THEN "ok" ELSE "prefix_if-contract")
   ELSE IF e.k = "format_timestamp" THEN (IF ~ValidCivil(e.inst.c) THEN "recorder-civil-fields"
-                                         ELSE IF e.out.s = FormatTimestamp(e.format, e.inst) THEN "ok" ELSE "format_timestamp")
+                                         ELSE IF e.out.s = FormatTimestampTs(e.format, e.inst, e.ts) THEN "ok" ELSE "format_timestamp")
   ELSE "unknown-event"
 Next == /\ l <= Len(Rec)
         /\ LET why == Reason(Rec[l]) IN IF why = "ok" THEN TRUE ELSE PrintT("MISMATCH " \o ToString(l) \o " " \o why)
